@@ -50,6 +50,28 @@ Fixpoint pv_plain (v : pv) : bool :=
   | _ => true
   end.
 
+(** plist values whose written form reads back as themselves: text without line breaks (or indent
+    width 0: outside F3), finite reals, integers within the i64 / u64 range, bytes below 256,
+    well-shaped dates, no repeated key in a dictionary *)
+Definition int_ok (z : Z) : bool := (- 2 ^ 63 <=? z)%Z && (z <? 2 ^ 64)%Z.
+Definition bytes_ok (b : list N) : bool := forallb (fun c => c <? 256) b.
+Definition text_ok (width : nat) (s : str) : bool := Nat.eqb width 0 || no_newline s.
+Fixpoint nodup_keys (l : list str) : bool :=
+  match l with [] => true | x :: r => negb (mem_str x r) && nodup_keys r end.
+Fixpoint pv_good (width : nat) (v : pv) : bool :=
+  match v with
+  | PStr s => text_ok width s
+  | PInt z => int_ok z
+  | PReal x => match x with FFin _ _ _ => true | _ => false end
+  | PBool _ => true
+  | PData b => bytes_ok b
+  | PDate s => date_shape s
+  | PArr l => forallb (pv_good width) l
+  | PDict d =>
+      nodup_keys (map fst d) &&
+      forallb (fun kx => let '(k, x) := kx in text_ok width k && pv_good width x) d
+  end.
+
 Section Encoder.
   (** std / library formatters, not modelled: [f64::to_string], [format!("{:.3}")] of a colour
       channel, [Integer::to_string], [format!("{:04X}")] of a code point *)
@@ -226,3 +248,26 @@ Definition note_survives (n : option str) : bool :=
     begins or ends with a blank *)
 Definition c02_f3 (o : wopts) (g : glyph) : bool :=
   (negb (Nat.eqb (o_count o) 0) && negb (libs_plain g)) || negb (note_survives (gnote g)).
+
+(** ---------- object libs: what the writer moves out and the reader moves back ---------- *)
+(** the glyph as the reader has it before [load_object_libs]: no object carries a lib *)
+Definition strip_point (p : point) : point :=
+  mkPoint (px p) (py p) (ptyp p) (psmooth p) (pname p) (pid p) None.
+Definition strip_libs (g : glyph) : glyph :=
+  mkGlyph (gname g) (gwidth g) (gheight g) (gcps g) (gnote g) (gimage g)
+    (map (fun x => mkGuide (gline x) (guname x) (gcolor x) (guid x) None) (gguides g))
+    (map (fun a => mkAnchor (ax a) (ay a) (aname a) (acolor a) (aid a) None) (ganchors g))
+    (map (fun c => mkComp (cbase c) (ctrans c) (coid c) None) (gcomps g))
+    (map (fun c => mkContour (map strip_point (cpoints c)) (cid c) None) (gcontours g))
+    (glib g).
+(** dump the object libs into the lib (the writer), then read them back onto the objects (the
+    reader), without the XML in between *)
+Definition relib (g : glyph) : res glyph :=
+  bind (written_lib g) (fun lib => load_object_libs (set_lib (strip_libs g) lib)).
+(** every object that carries a lib has an identifier *)
+Definition libs_have_ids (g : glyph) : Prop :=
+  Forall (fun a => alib a <> None -> aid a <> None) (ganchors g) /\
+  Forall (fun x => gulib x <> None -> guid x <> None) (gguides g) /\
+  Forall (fun c => (clib c <> None -> cid c <> None) /\
+                   Forall (fun p => plib p <> None -> pid p <> None) (cpoints c)) (gcontours g) /\
+  Forall (fun c => colib c <> None -> coid c <> None) (gcomps g).
